@@ -1586,6 +1586,79 @@ func runC18(c *ev.Ctx) {
 		})
 		c.Count("soak_repeated_calls", soak)
 	}
+	// (b2') parameter history: the same test called with different parameters and other inputs in between.
+	// A(x) must return what it returned the first time whatever was called since: scratch state that one
+	// parameter set writes and another only partly overwrites (pooled matrices, tables sized for another m)
+	// shows up as a result that depends on the previous call
+	{
+		type hcall struct {
+			name string
+			fn   func(b []bool) []float64
+		}
+		var hc []hcall
+		pq := func(p, q float64) []float64 { return []float64{p, q} }
+		for _, mq := range [][2]int{{32, 32}, {32, 16}, {16, 32}, {16, 8}, {8, 8}, {31, 17}, {3, 29}} {
+			mq := mq
+			hc = append(hc, hcall{fmt.Sprintf("MatrixRankProto(%d,%d)", mq[0], mq[1]), func(b []bool) []float64 { return pq(R.MatrixRankProto(b, mq[0], mq[1])) }})
+		}
+		for _, m := range []int{2, 4, 8} {
+			m := m
+			hc = append(hc, hcall{fmt.Sprintf("PokerProto(%d)", m), func(b []bool) []float64 { return pq(R.PokerProto(b, m)) }})
+			hc = append(hc, hcall{fmt.Sprintf("PokerTestBytes(%d)", m), func(b []bool) []float64 { return pq(R.PokerTestBytes(packBools(b), m)) }})
+		}
+		for _, m := range []int{2, 3, 5, 7} {
+			m := m
+			hc = append(hc, hcall{fmt.Sprintf("Overlapping(%d)", m), func(b []bool) []float64 {
+				p1, p2, q1, q2 := R.OverlappingTemplateMatchingProto(b, m)
+				return []float64{p1, p2, q1, q2}
+			}})
+			hc = append(hc, hcall{fmt.Sprintf("ApproximateEntropy(%d)", m), func(b []bool) []float64 { return pq(R.ApproximateEntropyProto(b, m)) }})
+		}
+		for _, m := range []int{10, 100, 1000} {
+			m := m
+			hc = append(hc, hcall{fmt.Sprintf("FrequencyWithinBlock(%d)", m), func(b []bool) []float64 { return pq(R.FrequencyWithinBlockProto(b, m)) }})
+		}
+		for _, m := range []int{500, 1000, 64, 33} {
+			m := m
+			hc = append(hc, hcall{fmt.Sprintf("LinearComplexity(%d)", m), func(b []bool) []float64 { return pq(R.LinearComplexityProto(b, m)) }})
+		}
+		for _, k := range []int{1, 3, 7, 15} {
+			k := k
+			hc = append(hc, hcall{fmt.Sprintf("BinaryDerivative(%d)", k), func(b []bool) []float64 { return pq(R.BinaryDerivativeProto(b, k)) }})
+			hc = append(hc, hcall{fmt.Sprintf("Autocorrelation(%d)", k+1), func(b []bool) []float64 { return pq(R.AutocorrelationProto(b, k+1)) }})
+		}
+		var xs [][]bool
+		for i, fam := range []string{"slight", "uniform", "markov", "ones"} {
+			xs = append(xs, gen.Bools(gen.Seq{Fam: fam, N: []int{8968, 4099, 12000, 5000}[i], Seed: gen.Mix(seed, 1899, uint64(i))}.Bits()))
+		}
+		x := xs[0]
+		var hist int64
+		for ai, a := range hc {
+			var first []float64
+			if p, _ := guard(func() { first = a.fn(x) }); p {
+				continue // outside this parameter set's domain for the input: nothing to repeat
+			}
+			for bi, b := range hc {
+				if strings.SplitN(a.name, "(", 2)[0] != strings.SplitN(b.name, "(", 2)[0] && (ai+bi)%5 != 0 {
+					continue // all variants of the same test, a fifth of the others
+				}
+				y := xs[1+(ai+bi)%3]
+				guard(func() { b.fn(y) })
+				var got []float64
+				if p, m := guard(func() { got = a.fn(x) }); p {
+					c.Violation(fmt.Sprintf("history:%s after %s:panic", a.name, b.name), m, "c18", ai)
+					break
+				}
+				hist++
+				if !sameVec(got, first) {
+					c.Violation(fmt.Sprintf("history:%s after %s", a.name, b.name), fmt.Sprintf("%s on the same data returned %v after a call of %s on other data; its first call returned %v", a.name, got, b.name, first), "c18", ai)
+					break
+				}
+			}
+			c.Eval(ev.HashStr("paramhistory|"+a.name), true)
+		}
+		c.Count("parameter_history_repeats", hist)
+	}
 	// (b4) hammer: every cheap entry point from 64 goroutines at once, each on inputs of its own (short, so
 	// that calls are frequent): whatever an entry point recycles between calls (pools, scratch tables) must
 	// not be visible to a concurrent caller of the SAME entry point
@@ -1772,4 +1845,17 @@ func init() {
 		w, msg, pan := symEval(cs, cs.Seq.Bits())
 		return pan || w > 1e-8, fmt.Sprintf("%s |delta| %.3g", msg, w)
 	}
+}
+
+// packBools packs a bit slice MSB-first (a trailing partial byte is dropped).
+func packBools(b []bool) []byte {
+	out := make([]byte, len(b)/8)
+	for i := range out {
+		for j := 0; j < 8; j++ {
+			if b[i*8+j] {
+				out[i] |= 0x80 >> uint(j)
+			}
+		}
+	}
+	return out
 }
